@@ -4,7 +4,10 @@
 def generate():
     from frappy.lib.asynconn import AsynConn
     from frappy.io import IOBase
+    from frappy.lib import SECoP_DEFAULT_PORT
     return [
         f'/-- `AsynConn.timeout`: the longest one `recv` blocks, in microseconds -/\ndef recvGranularity : Nat := {int(AsynConn.timeout * 1000000)}',
         f'/-- `IOBase._last_connect_attempt` before the first attempt -/\ndef initialLastAttempt : Nat := {int(IOBase._last_connect_attempt)}',
+        f'/-- `frappy.lib.SECoP_DEFAULT_PORT`: the tcp port used when neither the uri nor the default settings give one -/\n'
+        f'def secopDefaultPort : Nat := {int(SECoP_DEFAULT_PORT)}',
     ]
